@@ -6,6 +6,7 @@ CONSTANTS
   ChunkStride = 1
   Walk = FALSE
   Pow2 = TRUE
+  Pos = FALSE
   Kinds = {"half", "float", "double", "x86_fp80", "fp128", "ppc_fp128"}
 INVARIANTS Preserved
 CHECK_DEADLOCK FALSE
